@@ -89,7 +89,7 @@ TABLE = {
         "text": "Every entry of J.A(J) must be >= -(allowance + rounding slop) for UPGrad, DualProj, MGDA and CAGrad(c>=1): exhaustively on all 21 297 "
                 "{-1,0,1} matrices up to 3x3 and on hostile matrices with preference vectors and iteration budgets; MGDA's sub-optimality is also "
                 "compared with 8 s^2/(max_iters+2).",
-        "note": "Allowances as stated in the property; CAGrad tolerance 1e-6 (float64) / 5e-3 (float32) times s^2 (1+c).",
+        "note": "Allowances as stated in the property; CAGrad tolerance 3e-4 (float64) / 5e-3 (float32) times s^2 (1+c) (conic solver).",
     },
     "C08": {
         "level": "exploration", "design_ref": "DESIGN.md §4 C08",
